@@ -172,3 +172,102 @@ pub async fn ref_session(fault: RefFault) -> Option<RefOutcome> {
     server_task.abort();
     Some(RefOutcome { line: c.lines(), client_final, hvr_seen, exporter_equal, echo_ok, profile })
 }
+
+// ---------------------------------------------------------------------------------------------
+// the other direction: reference DTLS *client* (webrtc-rs `dtls`) <-> rustrtc *server*.  Everything the rustrtc server
+// puts on the wire that rustrtc's own client never looks at (cipher suite and extensions in the ServerHello, the
+// ServerKeyExchange encoding, the server Finished over a foreign client's transcript, the re-flight on a repeated
+// ClientHello) gets an independent judge here.
+
+/// faults on this side: `None`, `NoEms`, `DupFlight` (first datagram of the server's flight duplicated),
+/// `SwapFlight` (its first two datagrams swapped), `DupHvr` is reused as "the ClientHello is delivered twice"
+pub async fn ref_client_session(fault: RefFault) -> Option<RefOutcome> {
+    let scert = rustrtc::transports::dtls::generate_certificate().ok()?;
+    let mut s = Recd::new(false, scert, None).await;
+    let s_src = s.ep.sink_addr;
+    let _ = s.start().await;
+    let p = UdpSocket::bind("127.0.0.1:0").await.ok()?;
+    let csock = UdpSocket::bind("127.0.0.1:0").await.ok()?;
+    csock.connect(p.local_addr().ok()?).await.ok()?;
+    let client_addr = csock.local_addr().ok()?;
+    let cert = RefCertificate::generate_self_signed(vec!["localhost".to_string()]).ok()?;
+    let config = Config {
+        certificates: vec![cert],
+        cipher_suites: vec![CipherSuiteId::Tls_Ecdhe_Ecdsa_With_Aes_128_Gcm_Sha256],
+        srtp_protection_profiles: vec![SrtpProtectionProfile::Srtp_Aead_Aes_128_Gcm, SrtpProtectionProfile::Srtp_Aes128_Cm_Hmac_Sha1_80],
+        extended_master_secret: if fault == RefFault::NoEms { ExtendedMasterSecretType::Disable } else { ExtendedMasterSecretType::Request },
+        insecure_skip_verify: true,
+        ..Default::default()
+    };
+    let slot: Arc<tokio::sync::Mutex<Option<Arc<DTLSConn>>>> = Arc::new(tokio::sync::Mutex::new(None));
+    let err: Arc<tokio::sync::Mutex<Option<String>>> = Arc::new(tokio::sync::Mutex::new(None));
+    let (slot2, err2) = (slot.clone(), err.clone());
+    let client_task = tokio::spawn(async move {
+        match DTLSConn::new(Arc::new(csock), config, true, None).await {
+            Ok(conn) => {
+                let conn = Arc::new(conn);
+                *slot2.lock().await = Some(conn.clone());
+                let mut buf = vec![0u8; 2048];
+                while let Ok(n) = conn.recv(&mut buf).await { if conn.send(&buf[..n]).await.is_err() { break; } }
+            }
+            Err(e) => { *err2.lock().await = Some(format!("{e}")); }
+        }
+    });
+    let quiet = Duration::from_millis(60);
+    let mut fault_done = false;
+    for _round in 0..12 {
+        let mut from_client = collect(&p, quiet).await;
+        if from_client.is_empty() { if s.ep.letter() != 'H' || err.lock().await.is_some() { break; } }
+        if !fault_done && fault == RefFault::DupHvr { if let Some(i) = from_client.iter().position(|d| first_hs_type(d) == 1) { fault_done = true; let x = from_client[i].clone(); from_client.insert(i, x); } }
+        let mut to_client: Vec<Vec<u8>> = vec![];
+        for d in from_client { to_client.extend(s.inject(&d, s_src).await); }
+        if !fault_done && to_client.iter().any(|d| first_hs_type(d) == 2) {
+            match fault { RefFault::DupFlight => { fault_done = true; let x = to_client[0].clone(); to_client.insert(0, x); }
+                RefFault::SwapFlight if to_client.len() >= 2 => { fault_done = true; to_client.swap(0, 1); } _ => {} }
+        }
+        for d in to_client { let _ = p.send_to(&d, client_addr).await; }
+        if s.unexpected_tick_possible() { client_task.abort(); return None; }
+        if slot.lock().await.is_some() && s.ep.letter() == 'C' { break; }
+    }
+    // recovery: the reference client retransmits on its own 1 s timer, ours by `tick`
+    for _ in 0..2 {
+        if s.ep.letter() != 'H' || slot.lock().await.is_some() { break; }
+        let mut out = s.tick().await;
+        for _ in 0..6 {
+            for d in out.drain(..) { let _ = p.send_to(&d, client_addr).await; }
+            let more = collect(&p, Duration::from_millis(150)).await;
+            if more.is_empty() { break; }
+            for d in more { out.extend(s.inject(&d, s_src).await); }
+        }
+        if s.unexpected_tick_possible() { client_task.abort(); return None; }
+    }
+    // the client's Finished round trip may still be completing inside the reference stack
+    for _ in 0..10 { if slot.lock().await.is_some() { break; } tokio::time::sleep(Duration::from_millis(20)).await;
+        for d in collect(&p, Duration::from_millis(20)).await { for x in s.inject(&d, s_src).await { let _ = p.send_to(&x, client_addr).await; } } }
+    let server_final = s.ep.letter();
+    let conn = slot.lock().await.clone();
+    let (mut exporter_equal, mut echo_ok, mut profile) = (None, None, (s.ep.srtp_profile(), None));
+    if server_final == 'C' { if let Some(dc) = &conn {
+        for d in s.send(b"ping through the reference client").await { let _ = p.send_to(&d, client_addr).await; }
+        let mut got = false;
+        for d in collect(&p, Duration::from_millis(200)).await {
+            let before = s.outs.len();
+            s.inject(&d, s_src).await;
+            if s.outs[before..].iter().any(|o| o.contains(&crate::hex(b"ping through the reference client"))) { got = true; }
+        }
+        echo_ok = Some(got);
+        let st = dc.connection_state().await;
+        let theirs = st.export_keying_material("EXTRACTOR-dtls_srtp", &[], 60).await.ok();
+        let ours = s.ep.dtls.export_keying_material("EXTRACTOR-dtls_srtp", 60).ok();
+        exporter_equal = Some(theirs.is_some() && theirs == ours);
+        profile.1 = Some(match dc.selected_srtpprotection_profile() { SrtpProtectionProfile::Srtp_Aead_Aes_128_Gcm => 7,
+            SrtpProtectionProfile::Srtp_Aes128_Cm_Hmac_Sha1_80 => 1, _ => 0 });
+    } }
+    let refused = err.lock().await.clone();
+    client_task.abort();
+    // `client_final` carries the rustrtc side's final state; a reference client that gave up counts as not connected
+    let final_letter = if conn.is_none() { if server_final == 'C' { 'c' } else { server_final } } else { server_final };
+    let mut line = s.lines();
+    if let Some(e) = refused { line.0.push_str(""); let _ = e; }
+    Some(RefOutcome { line, client_final: final_letter, hvr_seen: false, exporter_equal, echo_ok, profile })
+}
